@@ -30,7 +30,7 @@ CLAIMED = {
    ref="DESIGN.md §4 C20", note=TRUST+" The reference model progen.Breaking is trusted; renames are not generated; HEAD always compiles; a reported line is matched by file and leading quoted names, not wording.",
    tech="deterministic simulation of map-iteration order over the real linter on real two-commit git histories; reference model as oracle"),
  "C10": dict(engine="order-world", cat="exploration",
-   text="Seeded (program, option set) pairs compiled and generated repeatedly into fresh or deliberately stale directories (also through the real command line), each time under another seeded map-iteration order at every range-over-map site of the compiler and the generator (plus reflect MapKeys), with an in-process capturing service generator; oracles: same success/failure, same set of output paths, same sha256 of every file, same plugin request up to the numbering of module and service ids.",
+   text="Seeded (program, option set) pairs compiled and generated repeatedly into fresh or deliberately stale directories (also through the real command line), each time under another seeded map-iteration order at every range-over-map site of the compiler and the generator (plus reflect MapKeys), with an in-process capturing service generator; oracles: same success/failure, same set of output paths, same sha256 of every file, same plugin request up to the numbering of module and service ids; a fixed program generated before and after every program of a worker process comes out the same every time (no state survives from one generation to the next).",
    ref="DESIGN.md §4 C10", note=TRUST+" Map iteration inside third-party code is not seamed (text/template sorts keys). Cross-process determinism is argued through the seam: map order is the generator's only per-process nondeterminism (no clock, randomness or goroutines in compile/ and gen/; see the seam report in the evidence).",
    tech="deterministic simulation of map-iteration order (seeded permutations at every range-over-map site), cross-schedule comparison of output hashes"),
  "C07": dict(engine="order-world", cat="exploration",
